@@ -90,6 +90,13 @@ class Mode:
             return SymArray(a.reshape(shape), dtype)
         return np.array(elems, dtype=dtype).reshape(shape)
 
+    def dtype_tol(self, *dtypes):
+        """float32 operands: the floating-point replay computes in single precision (relative rounding 6e-8 per
+        operation); its comparisons get a correspondingly wider tolerance.  The symbolic run is over the reals
+        and is not affected."""
+        if not self.symbolic and any(np.dtype(d) == np.dtype("float32") for d in dtypes if d is not None):
+            self.tol = max(self.tol, 2e-5)
+
     def distinct(self, *arrays):
         """Assume all elements of the given arrays pairwise distinct (provenance labels: the
         values are payload that never influences control flow; distinctness lets the concrete
